@@ -295,6 +295,33 @@ def bounded(check, tier, seed):
                 if a.num_columns != w or grid(a) != [cells(r) + [BL] * (w - len(r)) for r in rows]:
                     s.fail("C04.fsarray.rows", dict(rows=[repr(r) for r in rows], width=width), f"grid {show(grid(a))}")
     s.done()
+    # formatting arguments after the width: they format the plain strings; a row that is already a FmtStr shows as it is
+    s = Suite(check, "C04.fsarray_formatting", "fsarray(rows, width, *names, **keywords): every list of <=3 rows over {str, formatted FmtStr, two-run FmtStr, "
+              "empty} x width None/len/len+1 x 5 formatting specifications: a str row shows its text with the named formatting, a FmtStr row "
+              "shows exactly as it is, blanks fill the rest", bound="<=3 rows")
+    from curtsies.formatstring import fmtstr as _fmtstr
+    fpool = ["", "ab", "xyz", mk((1, 1)), mk((2,), 70, 2), _fmtstr("q", "on_red", "bold")]
+    specs = [(("red",), {}), ((), {"fg": "blue"}), (("on_green", "bold"), {}), ((), {"bg": 44, "underline": True}), ((), {"style": "invert"})]
+    for n_ in range(1, 4):
+        for rows in itertools.product(fpool, repeat=n_):
+            lens = [len(r) for r in rows]
+            for width in (None, max(lens), max(lens) + 1):
+                for args, kw in specs:
+                    case = dict(rows=[repr(r) for r in rows], width=width, args=list(args), kwargs=kw)
+                    s.case((tuple(map(repr, rows)), width, args, repr(kw)), sample=case)
+                    try:
+                        a = fsarray(list(rows), width, *args, **kw)
+                    except Exception as e:      # noqa: BLE001
+                        s.fail("C04.fsarray.raises", case, f"unexpected {e!r}")
+                        continue
+                    w = width if width is not None else max(lens)
+                    want = [(cells(r) if isinstance(r, FmtStr) else cells(_fmtstr(r, *args, **kw))) for r in rows]
+                    g = grid(a)
+                    ok = a.num_columns == w and len(g) == len(rows) and all(len(gr) == w and gr[:len(x)] == x and all(c[0] == " " for c in gr[len(x):])
+                                                                             for gr, x in zip(g, want))
+                    if not ok:
+                        s.fail("C04.fsarray.rows", case, f"grid {show(g)}; the rows are {show(want)}")
+    s.done()
 
 
 def contract_probe(n=2500):
